@@ -182,6 +182,7 @@ inductive Ty where
   | like (base : Ty) (nav : Bytes)              -- `Like[T, 'navigation']`
   | callable (has : Bool) (ts : List Ty)        -- `Callable` (`has = false`) / `Callable[T1, …, Tn]` (no block, no return type)
   | runtime (rt name : Bytes) (pat : Option Bytes)   -- `Runtime['rt', 'name', Regexp[/pat/]]`
+  | struct (es : List (Bytes × Bool × Ty))      -- `Struct[{…}]`: per member its name, "the key is Optional[name]", the value type
   deriving Inhabited
 
 def Ty.isAny : Ty → Bool
@@ -212,6 +213,7 @@ def Ty.name : Ty → Bytes
   | .hash _ _ _ _ => [0x48, 0x61, 0x73, 0x68] | .like _ _ => [0x4c, 0x69, 0x6b, 0x65]
   | .callable _ _ => [0x43, 0x61, 0x6c, 0x6c, 0x61, 0x62, 0x6c, 0x65]
   | .runtime _ _ _ => [0x52, 0x75, 0x6e, 0x74, 0x69, 0x6d, 0x65]
+  | .struct _ => [0x53, 0x74, 0x72, 0x75, 0x63, 0x74]
 
 /-- `utils.ContainsAllStrings(a, b)`: every member of `b` occurs in `a` -/
 def containsAll (a b : List Bytes) : Bool := b.all fun s => a.contains s
@@ -244,6 +246,29 @@ def unorderedParams (keys : List Bytes) : Bytes := ekInt keys.length ++ frames (
 
 /-- the element keys of the parameters of an Enum: the marked strings, then `true` when it is case-insensitive -/
 def enumKeys (ci : Bool) (vals : List Bytes) : List Bytes := vals.map (strMark ++ ·) ++ (if ci then [boolKey true] else [])
+
+mutual
+/-- `isAssignable(t, Undef)`: the types of the model that accept `undef` (a Struct member whose value type does is written with
+    another entry key) -/
+def acceptsUndef : Ty → Bool
+  | .any => true | .undef => true | .opt _ => true
+  | .nul .unit => true | .nul .data => true | .nul .richData => true
+  | .var ts => acceptsUndefL ts
+  | _ => false
+def acceptsUndefL : List Ty → Bool
+  | [] => false
+  | t :: ts => acceptsUndef t || acceptsUndefL ts
+end
+
+/-- the keys of the types `Optional['name']` and `NotUndef['name']` (how `StructType.Parameters()` writes some member keys) -/
+def optStrKey (n : Bytes) : Bytes := [1, 0x74] ++ ekStr [0x4f, 0x70, 0x74, 0x69, 0x6f, 0x6e, 0x61, 0x6c] ++ ekStr n
+def notUndefStrKey (n : Bytes) : Bytes := [1, 0x74] ++ ekStr [0x4e, 0x6f, 0x74, 0x55, 0x6e, 0x64, 0x65, 0x66] ++ ekStr n
+
+/-- the entry key of a Struct member in `Parameters()`: the plain name when "optional key" and "value accepts undef" agree, else
+    the type `Optional['name']` (optional key, the value does not accept undef) or `NotUndef['name']` (required key, it does) -/
+def structEntryKey (n : Bytes) (optKey optVal : Bool) : Bytes :=
+  if optKey then (if optVal then strMark ++ n else optStrKey n)
+  else (if optVal then notUndefStrKey n else strMark ++ n)
 
 /-- the key of a Regexp VALUE (`Regexp.ToKey`): what a Regexp / Pattern type has as a parameter -/
 def rxKey (p : Bytes) : Bytes := [1, 0x72] ++ p
@@ -319,6 +344,9 @@ def tyKey : Ty → Bytes
        (frame undefKey ++ frame undefKey))
   -- `RuntimeType.Parameters()` (/repo fixes 1cd0d3f, f14f4ca): nothing for the default only; else the runtime, the name unless
   -- it is empty AND no pattern follows, the pattern (a Regexp type) if there is one
+  -- `StructType.Parameters()` is ONE hash; `appendTypeParamKey` (/repo fix 61b915c) writes byte 2, the number of entries, then
+  -- per entry its key as an element key, byte 3, the value type as an element key; nothing for the default Struct
+  | .struct es => [1, 0x74] ++ ekStr (Ty.struct es).name ++ (if es.isEmpty then [] else 2 :: (ekInt es.length ++ tyKeyS es))
   | .runtime rt n p => [1, 0x74] ++ ekStr (Ty.runtime rt n p).name ++
       (if (rt.isEmpty ∧ n.isEmpty) ∧ p.isNone then []
        else ekStr rt ++ ((if n.isEmpty ∧ p.isNone then [] else ekStr n) ++ (match p with | none => [] | some p => frame (rxTyKey p))))
@@ -329,6 +357,10 @@ def tyKeys : List Ty → Bytes
 def tyKeyL : List Ty → List Bytes
   | [] => []
   | t :: ts => tyKey t :: tyKeyL ts
+/-- the entries of the parameter hash of a Struct -/
+def tyKeyS : List (Bytes × Bool × Ty) → Bytes
+  | [] => []
+  | (n, o, v) :: es => frame (structEntryKey n o (acceptsUndef v)) ++ (3 :: (frame (tyKey v) ++ tyKeyS es))
 end
 
 mutual
@@ -375,6 +407,7 @@ def tyEq : Ty → Ty → Bool
   -- same number of members, pairwise Equal)
   | .callable h ts, b => match b with | .callable h' us => h == h' && (!h || (ts.length == us.length && tyEqL ts us)) | _ => false
   | .runtime rt n p, b => match b with | .runtime rt' n' p' => rt == rt' && n == n' && p == p' | _ => false
+  | .struct es, b => match b with | .struct fs => es.length == fs.length && tyEqS es fs | _ => false
 termination_by structural a => a
 /-- `b.Equals(a)` (the argument receives the call), by recursion on `a` -/
 def tyEqR : Ty → Ty → Bool
@@ -415,6 +448,7 @@ def tyEqR : Ty → Ty → Bool
   | .like t n, b => match b with | .like t' n' => n' == n && tyEqR t t' | _ => false
   | .callable h ts, b => match b with | .callable h' us => h' == h && (!h || (us.length == ts.length && tyEqRL ts us)) | _ => false
   | .runtime rt n p, b => match b with | .runtime rt' n' p' => rt' == rt && n' == n && p' == p | _ => false
+  | .struct es, b => match b with | .struct fs => fs.length == es.length && tyEqRS es fs | _ => false
 termination_by structural a => a
 /-- pointwise `ts[i].Equals(us[i])` (lengths already compared) -/
 def tyEqL : List Ty → List Ty → Bool
@@ -425,6 +459,15 @@ def tyEqRL : List Ty → List Ty → Bool
   | [], _ => true
   | t :: ts, us => match us with | u :: us' => tyEqR t u && tyEqRL ts us' | [] => false
 termination_by structural ts => ts
+/-- `StructElement.Equals`, member by member: the key types (`String['n']` or `Optional['n']`) and the value types -/
+def tyEqS : List (Bytes × Bool × Ty) → List (Bytes × Bool × Ty) → Bool
+  | [], _ => true
+  | (n, o, v) :: es, fs => match fs with | (n', o', v') :: fs' => (n == n' && o == o') && tyEq v v' && tyEqS es fs' | [] => false
+termination_by structural es => es
+def tyEqRS : List (Bytes × Bool × Ty) → List (Bytes × Bool × Ty) → Bool
+  | [], _ => true
+  | (n, o, v) :: es, fs => match fs with | (n', o', v') :: fs' => (n' == n && o' == o) && tyEqR v v' && tyEqRS es fs' | [] => false
+termination_by structural es => es
 /-- every `v` of `ts` has some `ov` in `us` with `ov.Equals(v)` -/
 def inclR : List Ty → List Ty → Bool
   | [], _ => true
@@ -692,6 +735,11 @@ def mkStr (lo hi : Int) (s : Bytes) : Ty :=
   if s.isEmpty then
     (if (if lo < 0 then 0 else lo) = 0 ∧ hi = maxInt then .str else .strSize (if lo < 0 then 0 else lo) hi)
   else .strVal s
+
+/-- `NewStructElement(key, value)`: a plain string key becomes an optional key when the value type accepts undef;
+    `kind` 0 = string key, 1 = `String['name']` / `NotUndef['name']` (required), 2 = `Optional['name']` -/
+def mkStructElem (n : Bytes) (kind : Nat) (v : Ty) : Bytes × Bool × Ty :=
+  (n, (if kind = 0 then acceptsUndef v else kind == 2), v)
 
 /-- `newTypedName2`: one leading `::` of the name is dropped -/
 def mkTname (auth ns name : Bytes) : Val := .tname auth ns (trimColons name)
